@@ -272,6 +272,31 @@ def c16_r4(ctx):
             grp = norm.canon(c.args[1]).split(".")[-1]
             opt = norm.canon(c.args[2]).split(".")[-1] if len(c.args) > 2 else "InfixOperator"
             got.append((expr, grp, opt))
+    if len(got) == 1 and all(isinstance(a_, ast.Name) for c_ in norm.calls_in(init.node) if norm.canon(c_.func, ial) == "self.OpTagger"
+                             for a_ in c_.args[:3]):
+        # second spelling: one OpTagger(...) call in a loop over a literal table of rows -- read the rows in table order
+        call = [c_ for c_ in norm.calls_in(init.node) if norm.canon(c_.func, ial) == "self.OpTagger"][0]
+        loops = [w for w in ast.walk(init.node) if isinstance(w, ast.For) and isinstance(w.target, ast.Tuple)
+                 and any(x is call for x in ast.walk(w))]
+        if len(loops) == 1:
+            lp = loops[0]
+            table = lp.iter
+            if isinstance(table, ast.Name):
+                vals_ = [v_ for v_ in norm.assigned_names(init.node).get(table.id, []) if v_ is not None]
+                table = vals_[0] if len(vals_) == 1 else table
+            if isinstance(table, (ast.List, ast.Tuple)) and all(isinstance(r_, ast.Tuple) and len(r_.elts) == len(lp.target.elts)
+                                                                for r_ in table.elts):
+                names_ = [e_.id if isinstance(e_, ast.Name) else None for e_ in lp.target.elts]
+                got = []
+                for r_ in table.elts:
+                    env = dict(zip(names_, r_.elts))
+                    row = []
+                    for a_ in call.args[:3]:
+                        v_ = env.get(a_.id)
+                        row.append(norm.canon(v_, ial).split(".")[-1] if v_ is not None else "?")
+                    if len(row) == 2:
+                        row.append("InfixOperator")
+                    got.append(tuple(row))
     ctx.ob(init, got == DOCUMENTED_OPS, "taggers are appended as Not(prefix), And, Or, AndNot, AndMaybe, Require",
            detail="appended: %s" % got)
     ot = prog.cls("qparser.plugins.OperatorsPlugin.OpTagger")
@@ -344,6 +369,32 @@ def c16_r5(ctx):
     rets = [r.value for r in returns_of(pr)]
     ok = PA.has(sts, "q = nodes.query(self)") and PA.has(sts, "q = query.NullQuery") and PA.has(sts, "q = q.normalize()") and \
         len(rets) >= 1 and all(PA.eq(r, "q") for r in rets)
+    if not ok:
+        # second spelling: `q = nodes.query(self) or NullQuery`, an early `return q` when normalize is off, the normalized
+        # query under its own name.  What is required: the query variable has the NullQuery fallback, every return is that
+        # variable or its .normalize(), and the un-normalized one is returned only where `normalize` is known to be false
+        an_ = norm.assigned_names(pr.node)
+        qv = [n_ for n_, vals_ in an_.items() if any(v_ is not None and "nodes.query(self)" in norm.canon(v_) for v_ in vals_)]
+        if len(qv) == 1:
+            qn = qv[0]
+            fallback = any(v_ is not None and "NullQuery" in norm.canon(v_) for v_ in an_[qn])
+            fp = guards.Facts(pr)
+            good = bool(rets) and fallback
+            normalized_somewhere = False
+            nparam = "normalize" if "normalize" in pr.params else None
+            for r_ in returns_of(pr):
+                t_ = norm.deep_canon(r_.value, pr.node) if r_.value is not None else ""
+                raw = norm.canon(r_.value) == qn
+                isnorm = t_.endswith(".normalize()") or (raw and PA.has(sts, "%s = %s.normalize()" % (qn, qn)))
+                normalized_somewhere = normalized_somewhere or isnorm
+                if raw and not isnorm:
+                    nd_ = fp.node_of(r_.value)
+                    facts_ = fp.at(nd_) if nd_ is not None else None
+                    if nparam is None or not facts_ or ("F", nparam) not in facts_:
+                        good = False
+                elif not isnorm:
+                    good = False
+            ok = good and normalized_somewhere
     ctx.ob(pr, ok, "parse() returns NullQuery for nothing and normalizes the result")
 
 
